@@ -297,10 +297,18 @@ def run_history(case, viol, obs, keys):
             obj = (co, const, sense); hist.append(("obj", co, const, sense))
         elif op in ("qlb", "qfix") and names:
             free = [i for i in names if i not in {x for x, _ in pend_fix} and i not in {x for x, _ in pend_lb}]
-            if not free:
+            other = dict(pend_fix if op == "qlb" else pend_lb)
+            both = [i for i in other if i not in {x for x, _ in (pend_lb if op == "qlb" else pend_fix)}]
+            if both and rng.random() < 0.35:
+                # the same variable in BOTH queues before one optimize, with the one value for which the request is unambiguous
+                # (fix to v and lower bound v, in either order: bounds [v, v])
+                i = rng.choice(both); val = int(other[i]); rep = 1
+                obs["c12.history_var_in_both_queues"] += 1
+            elif not free:
                 continue
-            i = rng.choice(free); val = rng.randint(int(lb[i]), max(int(lb[i]), int(ub[i])))
-            rep = rng.choice([1, 1, 2])
+            else:
+                i = rng.choice(free); val = rng.randint(int(lb[i]), max(int(lb[i]), int(ub[i])))
+                rep = rng.choice([1, 1, 2])
             for _ in range(rep):
                 if op == "qlb":
                     s.queue_set_var_lower_bound(var[i], val)
@@ -314,10 +322,10 @@ def run_history(case, viol, obs, keys):
             i = rng.choice(free); val = rng.randint(int(lb[i]), max(int(lb[i]), int(ub[i])))
             s.fix_variable(var[i], val); lb[i] = ub[i] = float(val); hist.append(("fix", i, val))
         elif op == "opt" and names:
-            for i, v in pend_fix:
-                lb[i] = ub[i] = v
             for i, v in pend_lb:
                 lb[i] = v
+            for i, v in pend_fix:
+                lb[i] = ub[i] = v
             had_lb = bool(pend_lb)
             pend_fix = []; pend_lb = []
             s.optimize(); hist.append(("opt",))
